@@ -93,6 +93,12 @@ STRENGTHENED = {
     'C17-9': 'writer in a child with RLIMIT_FSIZE below / above the size of the publication',
     'C18-9': 'caught only by chance at first (one of two runs, by the sampled whole-run watchers); now the state as it was at its last notification is compared with the state at every quiescent point',
     'C19-9': 'a phase killed while the record handler saves its message; later messages of the run must still be captured',
+    # seventh round (ten properties)
+    'C01-10': 'two test diagnosers reporting one result, first as a failure then as a note',
+    'C09-10': 'a dimensioned measurement that is never set (exit paths)',
+    'C11-10': 'a phase recorded as skipped in a failed subtest carrying a conditional validator whose diagnosis exists',
+    'C12-10': 'bodies that end by raising, also behind the slow exit handler (the exception message is what gets delayed)',
+    'C19-10': 'a station handler with a formatter and no MAC filter ahead of the record handlers, no console handler',
 }
 # caught at once, but by the check of a neighbouring property
 NEIGHBOUR = {
